@@ -126,7 +126,7 @@ theorem table_full : FullTable stdOps lpOp rpOp where
 
 /-- **parse ∘ render = tree** (clauses "conventional precedence", "left-to-right associativity", "whitespace never
     changes the result", structure part), character level, for every expression built from atoms (non-empty runs of
-    printable ASCII bytes that start no operator and do not end in `e`), the binary operators of the table, signs/
+    printable ASCII bytes that start no operator and do not end in an unfinished exponent literal such as `2e`), the binary operators of the table, signs/
     negations before atoms and before parentheses, and parentheses, rendered with parentheses wherever precedence and
     left associativity require them (`WF`) and with ANY runs of blank/tab/newline/return between tokens: the model
     parser returns exactly the expression tree.  Token-level form of `parse_render` below (`_partial`: a call is
@@ -146,7 +146,8 @@ theorem parse_render_float_partial (fns : List Bytes) (e : E) (hw : e.WF lpOp.pr
 /-- **parse ∘ render = tree for the full expression language** (clauses "conventional precedence", "left-to-right
     associativity", "whitespace never changes the result", structure part): for every expression `e : X` built from
     atoms (numeric literals incl. exponent literals `1.2e-2`, variables `$x`: non-empty runs of printable ASCII that
-    start no operator except an exponent `-`, not ending in `e`), function calls `f ( a₁ , … , aₙ )` with `f` a
+    start no operator except an exponent `-`, not ending in an unfinished exponent literal such as `2e`; names like `$e`,
+    `$rate`, `$a1e` are atoms), function calls `f ( a₁ , … , aₙ )` with `f` a
     defined function name and arbitrarily nested arguments, the binary operators of the table, signs/negations before
     atoms, calls and parentheses, and parentheses — written with parentheses wherever precedence and left
     associativity require them (`X.WF`) and with ANY runs of blank/tab/newline/return between ANY two tokens (top
@@ -407,7 +408,7 @@ theorem reset_is_needed :
   have p1 : parseLoop stdOps [] [] (symBytes "1") {} false none = .ok ⟨[.operand none (symBytes "1")], []⟩ := by
     have := parseLoop_render stdOps [] table_lexable lpOp rpOp table_full.toParenTable (fun _ => []) b0
       [.opd (symBytes "1")] 0 ⟨{}, false, none⟩ ⟨⟨[.operand none (symBytes "1")], []⟩, true, none⟩ [] rfl
-      (fun _ => stopPre_nil) ⟨a1, Or.inl rfl, trivial⟩ (by decide)
+      (fun _ => stopPre_nil) ⟨a1, Or.inl rfl, trivial⟩ rfl
     simpa [render, Tok.bytes] using this
   have p2 : ∀ (st : St) (m' : MSt),
       runToks ⟨st, false, none⟩ [.sym ⟨symBytes "*", 60, true, false⟩, .opd (symBytes "2")] = .ok m' →
@@ -416,7 +417,8 @@ theorem reset_is_needed :
     have := parseLoop_render stdOps [] table_lexable lpOp rpOp table_full.toParenTable (fun _ => []) b0
       [.sym ⟨symBytes "*", 60, true, false⟩, .opd (symBytes "2")] 0 ⟨st, false, none⟩ m' [] rfl
       (fun h => absurd h (by simp [NeedStop])) ⟨ht, Or.inr ⟨by decide, by decide⟩, a2, Or.inl rfl, trivial⟩ h
-    simpa [render, Tok.bytes] using this
+    have e : symBytes "*" ++ symBytes "2" = symBytes "*2" := by decide
+    simpa [render, Tok.bytes, e] using this
   have hold : (evaluateReuse stdOps [] none {} (symBytes "1")).1 = ⟨[.operand none (symBytes "1")], []⟩ := by
     simp only [evaluateReuse, evaluateWith, parseOn, St.reset, p1]
     rfl
@@ -425,12 +427,21 @@ theorem reset_is_needed :
     simp only [evaluateNoReset, evaluateWith, parseOnNoReset,
       p2 ⟨[.operand none (symBytes "1")], []⟩
         ⟨⟨[.operand none (symBytes "2"), .operand none (symBytes "1")], [⟨⟨symBytes "*", 60, true, false⟩, none⟩]⟩, true, none⟩
-        (by decide)]
+        rfl]
     rfl
   · rw [hold]
     simp only [evaluateReuse, evaluateWith, parseOn, St.reset,
-      p2 ⟨[], []⟩ ⟨⟨[.operand none (symBytes "2")], [⟨⟨symBytes "*", 60, true, false⟩, none⟩]⟩, true, none⟩ (by decide)]
+      p2 ⟨[], []⟩ ⟨⟨[.operand none (symBytes "2")], [⟨⟨symBytes "*", 60, true, false⟩, none⟩]⟩, true, none⟩ rfl]
     rfl
+
+/-! the exponent hack concerns numeric literals only: `$e`, `$rate`, `$a1e`, `1.2e-2` are atoms; an unfinished exponent
+    literal `2e` is not (a following `-` would be taken for its sign) -/
+example : AtomOK stdOps (symBytes "$e") ∧ AtomOK stdOps (symBytes "$rate") ∧ AtomOK stdOps (symBytes "$a1e") ∧
+    AtomOK stdOps (symBytes "1.2e-2") ∧ ¬ AtomOK stdOps (symBytes "2e") ∧
+    expHack (symBytes "$a1e").reverse = false ∧ expHack (symBytes "(3e").reverse = true :=
+  ⟨⟨by decide, by decide, by decide, by decide⟩, ⟨by decide, by decide, by decide, by decide⟩,
+   ⟨by decide, by decide, by decide, by decide⟩, ⟨by decide, by decide, by decide, by decide⟩,
+   fun h => absurd h.2.2.2 (by decide), by decide, by decide⟩
 
 /-! non-vacuity: the hypotheses of `parse_render_partial` are met by `1 - -2 * (3 + 4)` -/
 example : ∃ e : E, e.WF lpOp.prec ∧ e.In stdOps [] ∧ e.toTree ≠ .nil := by
